@@ -836,12 +836,15 @@ def gen_op(rng, nets, vms, images, malformed=False):
         # full test-node parameters: the states and modes of the OTHER operations are defined as well (a setup node
         # gets one state, sets another and cleans up a third) and must not influence this call
         for other in ("get", "set", "unset"):
-            if other == op or (other, op) in (("set", "push"), ("get", "pop")) or rng.random() < 0.3:
+            if other == op or rng.random() < 0.3:
                 continue
-            for k in scoped_keys(rng, f"{other}_state", nets, use_vms, images):
+            # push/pop are implemented through set / get+unset and overwrite the GENERIC keys of those operations: only
+            # the generic form is "foreign" there (the object-scoped forms are the known finding F_DELEGATE)
+            delegate = (other, op) in (("set", "push"), ("get", "pop"), ("unset", "pop"))
+            for k in ([f"{other}_state"] if delegate else scoped_keys(rng, f"{other}_state", nets, use_vms, images)):
                 p.setdefault(k, rng.choice(STATES + STATES + ROOTS[:1]))
-            if rng.random() < 0.5:
-                for k in scoped_keys(rng, f"{other}_mode", nets, use_vms, images):
+            if rng.random() < 0.6:
+                for k in ([f"{other}_mode"] if delegate else scoped_keys(rng, f"{other}_mode", nets, use_vms, images)):
                     p.setdefault(k, gen_mode(rng, other, 0.9))
     if op != "check" and rng.random() < 0.5:
         for k in scoped_keys(rng, "check_mode", nets, use_vms, images):
